@@ -1339,6 +1339,7 @@ class ThreadsafeForwardingResult(TestResult):
         self._add_result_with_semaphore(
             self.result.addError, test, err, details=details
         )
+        self._stop_if_failfast()
 
     def addExpectedFailure(self, test, err=None, details=None):
         self._add_result_with_semaphore(
@@ -1349,6 +1350,7 @@ class ThreadsafeForwardingResult(TestResult):
         self._add_result_with_semaphore(
             self.result.addFailure, test, err, details=details
         )
+        self._stop_if_failfast()
 
     def addSkip(self, test, reason=None, details=None):
         self._add_result_with_semaphore(
@@ -1362,6 +1364,13 @@ class ThreadsafeForwardingResult(TestResult):
         self._add_result_with_semaphore(
             self.result.addUnexpectedSuccess, test, details=details
         )
+        self._stop_if_failfast()
+
+    def _stop_if_failfast(self):
+        # failfast set on this forwarding result (rather than on the target):
+        # ask the target to stop, as TestResult does for itself.
+        if self.failfast:
+            self.stop()
 
     def progress(self, offset, whence):
         pass
